@@ -49,6 +49,20 @@ def r1(run, db):
             nr += 1
             okc = c.fn.id in listens or (c.fn.raw.get("impl_trait", "").endswith("ops::Drop") and "ActorPortSet" in (c.fn.raw.get("impl_self") or "") and meth in ("close", "try_recv"))
             run.check(okc, "consumer:%s:%s" % (c.fn.id, meth), "%s uses %s on the mailbox receiver (listen / Drop flush)" % (c.fn.id, meth), "%s consumes from the mailbox receiver (%s): a second consumer breaks handler order" % (c.fn.id, meth), c.where())
+    # cancel safety of the priority select: an arm that wraps the port's recv() in a future of its own must not suspend again
+    # after the receive completed -- the select drops the losing arms' futures, and a message already taken out of the port by
+    # a dropped arm is lost (and later ones overtake it)
+    top = set(cor.id for f, cor, s in m.listen_fns() if cor is not None)
+    for c in db.all_calls():
+        if not c.callee or "Receiver" not in c.callee or not re.search(r"::recv$", c.callee):
+            continue
+        w = c.fn
+        if w.id not in listens or w.kind != "coroutine" or w.id in top:
+            continue
+        for a in await_of_call(w, c):
+            later = [y for y, _t in w.yields() if a.ready_edge and y in w.reach(Site(a.ready_edge[1], 0))]
+            run.check(not later, "arm-cancel-safe:%s" % w.id.split("::")[-2], "after its receive completed the select arm %s returns without suspending again" % w.id,
+                      "the select arm %s suspends again after it has taken a message out of the port: if another arm wins meanwhile the arm is dropped and the message is lost" % w.id, c.where())
     run.anchor("mailbox sender call sites", ns, 3 if db.tag in ("rc", "clus", "rcatr", "ws") else 2)
     run.anchor("mailbox receiver call sites", nr, 3)
     # the sender field is not handed out: no body outside ActorProperties reads the `message` sender field
